@@ -291,6 +291,20 @@ func (r *runner) get(m string) ev {
 	return e
 }
 
+func (r *runner) ctabKeys() []string {
+	ck := []string{}
+	ct := r.bkt.hints.collisions
+	ct.Lock()
+	for _, grp := range ct.Items {
+		for k := range grp {
+			ck = append(ck, mk(k))
+		}
+	}
+	ct.Unlock()
+	sort.Strings(ck)
+	return ck
+}
+
 func (r *runner) readAll() ev {
 	m := ev{}
 	for _, k := range r.keys {
@@ -541,14 +555,7 @@ func (r *runner) step(i int, o *sop) (e ev, stop bool) {
 		e["files"] = r.listFiles()
 		e["meta"] = r.metaAll()
 		// keys present in the (durable) collision table after opening
-		ck := []string{}
-		for _, grp := range r.bkt.hints.collisions.Items {
-			for k := range grp {
-				ck = append(ck, mk(k))
-			}
-		}
-		sort.Strings(ck)
-		e["ctab"] = ck
+		e["ctab"] = r.ctabKeys()
 	case "gc":
 		// sequential family: no rotation flush is pending when GC is requested (the race
 		// "GC over a just rotated, not yet flushed file" belongs to the schedule family)
@@ -613,6 +620,10 @@ func (r *runner) step(i int, o *sop) (e ev, stop bool) {
 			nbuf = append(nbuf, len(ds.chunks[c].wbuf))
 		}
 		e["st"] = ev{"head": ds.newHead, "size": sizes, "nbuf": nbuf, "nextgc": r.bkt.NextGCChunk}
+	}
+	// which keys the collision table knows after this operation (an observed fact used by finding signatures only)
+	if r.bkt != nil && r.bkt.hints != nil && (e["a"] == "Set" || e["a"] == "Get" || e["a"] == "Incr") {
+		e["ctab"] = r.ctabKeys()
 	}
 	// a rotation spawned a flusher goroutine: by default let it run to completion now
 	if r.bkt != nil && r.bkt.datas != nil && headBefore >= 0 && r.bkt.datas.newHead > headBefore {
